@@ -78,6 +78,10 @@ func shapeOf(info *types.Info, e ast.Expr) string {
 		}
 		return "*" + in
 	case *ast.SelectorExpr:
+		// a struct field appears as its type (renaming a field keeps the shape); methods and package members keep their name
+		if sel, ok := info.Selections[x]; ok && sel.Kind() == types.FieldVal {
+			return shapeOf(info, x.X) + ".(" + short(sel.Type()) + ")"
+		}
 		return shapeOf(info, x.X) + "." + x.Sel.Name
 	case *ast.IndexExpr:
 		return shapeOf(info, x.X) + "[" + shapeOf(info, x.Index) + "]"
@@ -171,21 +175,21 @@ func (p *Prog) narrowArith() []narrowSite {
 // (exprShape: locals and parameters appear as their types, so renaming them or passing a value instead of
 // a pointer keeps the key), one line of reason each. Anything else is reported.
 var narrowArithAllowed = map[string]string{
-	"(*roaring.Bitmap).NextAbsentValue|<uint16> + 1":                                                                                "guarded by containerKey < nextContainerKey, so containerKey <= 65534",
-	"(*roaring.arrayContainer).nextAbsentValue|<searchResult>.value + 1":                                                            "only when result.index == cardinality-2, so result.value < maximum <= 65535",
-	"(*roaring.arrayContainer).nextAbsentValue|<*arrayContainer>.content[<int>] - <uint16>":                                         "midIndex > result.index and content is sorted, so content[midIndex] >= target",
-	"(*roaring.arrayContainer).nextAbsentValue|<*arrayContainer>.content[<int>] + 1":                                                "low < cardinality-1 on this path, so content[low] < maximum <= 65535",
-	"(*roaring.arrayContainer).previousAbsentValue|<searchResult>.value - 1":                                                        "result.index == 1, so result.value > minimum >= 0",
-	"(*roaring.arrayContainer).previousAbsentValue|<uint16> - <*arrayContainer>.content[<int>]":                                     "midIndex < result.index and content is sorted, so content[midIndex] <= target",
-	"(*roaring.arrayContainer).previousAbsentValue|<*arrayContainer>.content[<int>] - 1":                                            "high >= 1 on this path, so content[high] > minimum >= 0",
-	"(*roaring.bitmapContainer).resetTo|<interval16>.start + <interval16>.length":                                                   "interval invariant start+length <= 65535 (checked by validate for decoded data)",
-	"(*roaring.runContainer16).deleteAt|<*runContainer16>.iv[<int>].start + <uint16>":                                               "cursor position lies inside the interval: start+pos <= last <= 65535",
-	"(*roaring.runContainer16).invert|<interval16>.last() + 1":                                                                      "cur is not the last interval, so cur.last() < next.start <= 65535",
-	"(*roaring.runContainer16).rank|<uint16> - <*runContainer16>.iv[<int>].start":                                                   "x lies inside interval w on this path (already == true)",
-	"(*roaring.runIterator16).nextMany|<*runIterator16>.rc.iv[<*runIterator16>.curIndex].length - <*runIterator16>.curPosInIndex":   "guarded by length >= curPosInIndex",
-	"(*roaring.runIterator16).nextMany|<*runIterator16>.rc.iv[<*runIterator16>.curIndex].start + <*runIterator16>.curPosInIndex":    "cursor position lies inside the interval",
-	"(*roaring.runIterator16).nextMany64|<*runIterator16>.rc.iv[<*runIterator16>.curIndex].length - <*runIterator16>.curPosInIndex": "guarded by length >= curPosInIndex",
-	"(*roaring.runIterator16).nextMany64|<*runIterator16>.rc.iv[<*runIterator16>.curIndex].start + <*runIterator16>.curPosInIndex":  "cursor position lies inside the interval",
+	"(*roaring.Bitmap).NextAbsentValue|<uint16> + 1":                                                                                                     "guarded by containerKey < nextContainerKey, so containerKey <= 65534",
+	"(*roaring.arrayContainer).nextAbsentValue|<searchResult>.(uint16) + 1":                                                                              "only when result.index == cardinality-2, so result.value < maximum <= 65535",
+	"(*roaring.arrayContainer).nextAbsentValue|<*arrayContainer>.([]uint16)[<int>] - <uint16>":                                                           "midIndex > result.index and content is sorted, so content[midIndex] >= target",
+	"(*roaring.arrayContainer).nextAbsentValue|<*arrayContainer>.([]uint16)[<int>] + 1":                                                                  "low < cardinality-1 on this path, so content[low] < maximum <= 65535",
+	"(*roaring.arrayContainer).previousAbsentValue|<searchResult>.(uint16) - 1":                                                                          "result.index == 1, so result.value > minimum >= 0",
+	"(*roaring.arrayContainer).previousAbsentValue|<uint16> - <*arrayContainer>.([]uint16)[<int>]":                                                       "midIndex < result.index and content is sorted, so content[midIndex] <= target",
+	"(*roaring.arrayContainer).previousAbsentValue|<*arrayContainer>.([]uint16)[<int>] - 1":                                                              "high >= 1 on this path, so content[high] > minimum >= 0",
+	"(*roaring.bitmapContainer).resetTo|<interval16>.(uint16) + <interval16>.(uint16)":                                                                   "interval invariant start+length <= 65535 (checked by validate for decoded data)",
+	"(*roaring.runContainer16).deleteAt|<*runContainer16>.([]interval16)[<int>].(uint16) + <uint16>":                                                     "cursor position lies inside the interval: start+pos <= last <= 65535",
+	"(*roaring.runContainer16).invert|<interval16>.last() + 1":                                                                                           "cur is not the last interval, so cur.last() < next.start <= 65535",
+	"(*roaring.runContainer16).rank|<uint16> - <*runContainer16>.([]interval16)[<int>].(uint16)":                                                         "x lies inside interval w on this path (already == true)",
+	"(*roaring.runIterator16).nextMany|<*runIterator16>.(*runContainer16).([]interval16)[<*runIterator16>.(int)].(uint16) - <*runIterator16>.(uint16)":   "guarded by length >= curPosInIndex",
+	"(*roaring.runIterator16).nextMany|<*runIterator16>.(*runContainer16).([]interval16)[<*runIterator16>.(int)].(uint16) + <*runIterator16>.(uint16)":   "cursor position lies inside the interval",
+	"(*roaring.runIterator16).nextMany64|<*runIterator16>.(*runContainer16).([]interval16)[<*runIterator16>.(int)].(uint16) - <*runIterator16>.(uint16)": "guarded by length >= curPosInIndex",
+	"(*roaring.runIterator16).nextMany64|<*runIterator16>.(*runContainer16).([]interval16)[<*runIterator16>.(int)].(uint16) + <*runIterator16>.(uint16)": "cursor position lies inside the interval",
 }
 
 // Functions in which no 16-bit addition/subtraction may occur at all (whether or not it is widened
@@ -203,26 +207,26 @@ var narrowScope = []string{
 }
 
 var narrowScopeAllowed = map[string]string{
-	"(*roaring.Bitmap).NextAbsentValue|<uint16> + 1":                                            "guarded by containerKey < nextContainerKey",
-	"(*roaring.Bitmap).PreviousAbsentValue|<uint16> - 1":                                        "containerIndex > 0 on this path and keys are strictly increasing, so containerKey >= 1",
-	"(*roaring.arrayContainer).nextAbsentValue|<searchResult>.value + 1":                        "only when result.index == cardinality-2, so result.value < maximum",
-	"(*roaring.arrayContainer).nextAbsentValue|<*arrayContainer>.content[<int>] - <uint16>":     "content[midIndex] >= target (sorted, midIndex > result.index)",
-	"(*roaring.arrayContainer).nextAbsentValue|<*arrayContainer>.content[<int>] + 1":            "low < cardinality-1, so content[low] < maximum",
-	"(*roaring.arrayContainer).previousAbsentValue|<searchResult>.value - 1":                    "result.index == 1, so result.value > minimum",
-	"(*roaring.arrayContainer).previousAbsentValue|<uint16> - <*arrayContainer>.content[<int>]": "content[midIndex] <= target",
-	"(*roaring.arrayContainer).previousAbsentValue|<*arrayContainer>.content[<int>] - 1":        "high >= 1, so content[high] > minimum",
-	"(*roaring.bitmapContainer).nextAbsentValue|<uint16>++":                                     "x is a word index (< 1024)",
-	"(*roaring.bitmapContainer).previousAbsentValue|<uint16>++":                                 "x is a word index (< 1024)",
-	"(*roaring.unsetIterator).Next|<*unsetIterator>.emptyContainerVal++":                        "the wrap to 0 is the intended end-of-chunk test on the next line",
+	"(*roaring.Bitmap).NextAbsentValue|<uint16> + 1":                                               "guarded by containerKey < nextContainerKey",
+	"(*roaring.Bitmap).PreviousAbsentValue|<uint16> - 1":                                           "containerIndex > 0 on this path and keys are strictly increasing, so containerKey >= 1",
+	"(*roaring.arrayContainer).nextAbsentValue|<searchResult>.(uint16) + 1":                        "only when result.index == cardinality-2, so result.value < maximum",
+	"(*roaring.arrayContainer).nextAbsentValue|<*arrayContainer>.([]uint16)[<int>] - <uint16>":     "content[midIndex] >= target (sorted, midIndex > result.index)",
+	"(*roaring.arrayContainer).nextAbsentValue|<*arrayContainer>.([]uint16)[<int>] + 1":            "low < cardinality-1, so content[low] < maximum",
+	"(*roaring.arrayContainer).previousAbsentValue|<searchResult>.(uint16) - 1":                    "result.index == 1, so result.value > minimum",
+	"(*roaring.arrayContainer).previousAbsentValue|<uint16> - <*arrayContainer>.([]uint16)[<int>]": "content[midIndex] <= target",
+	"(*roaring.arrayContainer).previousAbsentValue|<*arrayContainer>.([]uint16)[<int>] - 1":        "high >= 1, so content[high] > minimum",
+	"(*roaring.bitmapContainer).nextAbsentValue|<uint16>++":                                        "x is a word index (< 1024)",
+	"(*roaring.bitmapContainer).previousAbsentValue|<uint16>++":                                    "x is a word index (< 1024)",
+	"(*roaring.unsetIterator).Next|<*unsetIterator>.(uint16)++":                                    "the wrap to 0 is the intended end-of-chunk test on the next line",
 }
 
 // The shape key abstracts from variable names, so it could cover a second, untriaged expression of the same
 // shape in the same function: each key stands for exactly as many sites as were read (1 unless listed).
 var narrowAllowedSites = map[string]int{
-	"scope:(*roaring.arrayContainer).nextAbsentValue|<searchResult>.value + 1":     2, // the comparison and the return inside the same guard
-	"scope:(*roaring.arrayContainer).previousAbsentValue|<searchResult>.value - 1": 2, // idem
-	"scope:(*roaring.bitmapContainer).nextAbsentValue|<uint16>++":                  2, // statement before the loop and the loop's post statement
-	"scope:(*roaring.bitmapContainer).previousAbsentValue|<uint16>++":              2, // idem
+	"scope:(*roaring.arrayContainer).nextAbsentValue|<searchResult>.(uint16) + 1":     2, // the comparison and the return inside the same guard
+	"scope:(*roaring.arrayContainer).previousAbsentValue|<searchResult>.(uint16) - 1": 2, // idem
+	"scope:(*roaring.bitmapContainer).nextAbsentValue|<uint16>++":                     2, // statement before the loop and the loop's post statement
+	"scope:(*roaring.bitmapContainer).previousAbsentValue|<uint16>++":                 2, // idem
 }
 
 func allowedCount(key string) int {
